@@ -139,3 +139,20 @@ Definition spec_decode (s : bytes) : option (bytes * Z * bytes) :=
 
 Definition valid_segwit (s : bytes) : bool :=
   match spec_decode s with Some _ => true | None => false end.
+
+(* the generic Bech32 / Bech32m string decoder of BIP173 (no segwit rules): Some (hrp, data values
+   without the checksum) exactly for the strings that are valid for the given checksum constant *)
+Definition spec_bech32_decode (s : bytes) (const : Z) : option (bytes * list Z) :=
+  if negb (Z.of_nat (length s) <=? max_len) then None else
+  if mixed_case s then None else
+  match split_last_sep (lowercase s) with
+  | None => None
+  | Some (hrp, dp) =>
+    if negb ((1 <=? length hrp)%nat && (length hrp <=? 83)%nat
+             && forallb (fun c => (33 <=? b2z c) && (b2z c <=? 126)) hrp) then None else
+    if negb (6 <=? length dp)%nat then None else
+    match values_of dp with
+    | None => None
+    | Some vals => if polymod (hrp_expand hrp ++ vals) =? const then Some (hrp, droplast 6 vals) else None
+    end
+  end.
